@@ -10,4 +10,5 @@ import SJ.Props.C04
 #print axioms SJ.Props.C04.c04_wf_of_parse
 #print axioms SJ.Props.C04.c04_reparse
 #print axioms SJ.Props.C04.c04_reparse_ap
+#print axioms SJ.Props.C04.c04_value_fr
 #print axioms SJ.Props.C04.c04_typed_partial
